@@ -25,6 +25,10 @@ def families(tier, seed):
     for vec in (False, True):
         T_, dt_ = (0.5, 0.01)
         out.append(dict(tag=f"{tag_}/{T_}/{dt_}", features=dict(feats_, dt=dt_), kind="run", model=model_, T=T_, dt=dt_, dts=None, solver="euler", vec=vec))
+    # a group of edges of which only some carry a spread (fixed witness of a listed finding; the non-vectorised compilation is checked)
+    tag6, feats6, model6 = gen.mixed_kernel_model()
+    for vec in (False, True):
+        out.append(dict(tag=f"{tag6}/0.5/0.01", features=dict(feats6, dt=0.01), kind="run", model=model6, T=0.5, dt=0.01, dts=None, solver="euler", vec=vec))
     # Connectivity (matrix) edges: same meaning as on scalar edges (C16 has the full population family)
     for tag, feats, ps in gen.c16_cases(seed):
         if tag.startswith("P6"):
